@@ -510,7 +510,7 @@ def gen_target(rng, nlo, nhi, nw, whole=None):
     if whole == 'scalar':
         K = int(rng.integers(1, 25))
         c = np.sort(rng.uniform(L - 0.1 * span, H + 0.1 * span, K))
-        if rng.random() < 0.35 and span > 4 * K:
+        if rng.random() < 0.35 and span > 4 * K and abs(L) < 1e12 and abs(H) < 1e12:
             # whole-number centres handed over as an INTEGER array (np.arange(...)), one fractional width for all bins
             c = np.unique(np.round(c).astype(np.int64))
             return c, float(max(span / len(c) * rng.uniform(0.1, 2.5), 0.3)) + 0.5, ['scalar', 'integer-centres']
